@@ -692,6 +692,9 @@ fn inject_panic(phase: PanicPhase) -> ! {
         _ => "panic_in_benched",
     });
     probe::event(UserEv::PanicInjected { phase });
+    // The sample is abandoned: what the unwinding machinery allocates is not
+    // work inside a timed section.
+    dsim::window::close();
     std::panic::resume_unwind(Box::new(InjectedPanic))
 }
 
@@ -862,6 +865,9 @@ fn count_input(c: &LoopCtx, kind: usize, id: u64) -> u64 {
 /// The body shared by all benchmarked closures. `consume` tells whether the
 /// input was passed by value (and is therefore consumed by the call).
 fn call_body<O: Val>(c: &LoopCtx, id: u64, consume: bool) -> O {
+    // The benchmarked call is the only code that may do as it pleases between
+    // the two timestamps.
+    let _benchmarked_call = dsim::window::Scope::enter();
     let tid = probe::tid().unwrap_or(0);
     let k = c.call_count[tid].fetch_add(1, Relaxed);
     probe::event(UserEv::CallBegin { id });
